@@ -358,6 +358,27 @@ static int pairs(char db, int zi, int zj) {
       }
     }
   }
+  // same year, different instants: Jan 1 / Dec 31 (UTC) first, then mid-year, and the other way round
+  for (int y = 1999; y <= 2050; y++) {
+    long long base = (long long) LocalDate::forComponents(y, 1, 1).toEpochDays() * 86400LL;
+    long long pts[4] = {base, base + 86399, base + 181LL * 86400 + 43200, base + 364LL * 86400 + 86399};
+    for (int i = 0; i < 4; i++) for (int j = 0; j < 4; j++) for (int k1 = 0; k1 < 3; k1++) for (int k2 = 0; k2 < 3; k2++) {
+      if (i == j) continue;
+      reset_all();
+      handle(std::string("PROC ") + db);
+      char b[64]; snprintf(b, sizeof(b), "TZ 0 %d", zi); handle(b);
+      char a1[64], a2[64];
+      snprintf(a1, sizeof(a1), "%s %lld", kinds[k1], pts[i]);
+      snprintf(a2, sizeof(a2), "%s %lld", kinds[k2], pts[j]);
+      handle(std::string("Q 0 ") + a1);
+      std::string got = handle(std::string("Q 0 ") + a2), want = handle(std::string("F 0 ") + a2);
+      n++;
+      if (got != want) {
+        if (bad < 10) printf("MISMATCH zone=%d hist=[%s; %s] got=%s fresh=%s\n", zi, a1, a2, got.c_str(), want.c_str());
+        bad++;
+      }
+    }
+  }
   // q(zoneA); q(zoneB); q(zoneA) on one shared processor
   if (zj >= 0) {
     for (int y1 = 1999; y1 <= 2050; y1 += 3) for (int k1 = 0; k1 < 5; k1++) for (int k2 = 0; k2 < 5; k2++) {
